@@ -11,7 +11,7 @@ Inductive cev :=
 | CAwait (t : Z) (a : awaiter)
 | CTouch (t : Z)                                   (* a copy *)
 | CInval (t : Z)
-| CFinish (ok : bool) (cd : list cell) (sz : Z).   (* a storage call that covered the chunk returned *)
+| CFinish (ok : bool) (cd : list (option cell)) (sz : Z).   (* a storage call that covered the chunk returned *)
 
 Definition cstep (c : chunk) (e : cev) : chunk :=
   match e with
